@@ -35,7 +35,7 @@ def gen_step(rng, kind, doc, texts, round_no, indexed=False):
     if kind == "edit":
         edits = [e for e in editgen.gen_batch(rng, doc, texts, rng.randint(1, 2), KINDS, comment_p=0.0 if indexed else 0.3)
                  if e.get("in_raw")]
-        if not indexed and rng.random() < 0.35:
+        if not indexed and rng.random() < 0.6:
             # a quote from the accepted view that ends with a pending insertion of an earlier round
             for e in editgen.gen_cross_ins_edit(rng, doc, texts) + editgen.gen_cross_ins_any(rng, doc, texts):
                 if not any(e["pi"] == y["pi"] for y in edits):
